@@ -13,5 +13,7 @@ func controlsC15() []Control {
 		{Name: "turn predicate reads DidAction instead of Acted", Expect: "R3", Mutate: replaceIn("(*tableEngine).updateCurrentActionEndAt", "!p.Acted", "p.DidAction == \"\"", 0)},
 		{Name: "deadline published on every event of a playing hand", Expect: "R3", Mutate: replaceIn("(*tableEngine).updateCurrentActionEndAt", "event == pokerface.GameEvent_RoundStarted && ", "", 0)},
 		{Name: "engine hook no longer drives the deadline updater", Expect: "R4", Mutate: replaceIn("(*tableEngine).updateGameState", "\t\tte.updateCurrentActionEndAt(event, gs)\n", "", 0)},
+		{Name: "river is not a timed round", Expect: "R3", Mutate: replaceIn("(*tableEngine).updateCurrentActionEndAt", "GameRound_Turn, GameRound_River}", "GameRound_Turn}", 0)},
+		{Name: "a bet offer is not a wager request", Expect: "R3", Mutate: replaceIn("(*tableEngine).updateCurrentActionEndAt", "WagerAction_Fold, WagerAction_Bet}", "WagerAction_Fold}", 0)},
 	}
 }
